@@ -253,6 +253,8 @@ Definition init_auth (w : world) (n : nat) (now : Z) (r : areq) : prog out :=
 (* /authorize/{callback} *)
 Record cbreq := mkCbReq { cb_id : id; cb_pol : pol_reply }.
 Definition continue_auth (w : world) (n : nat) (now : Z) (r : cbreq) : prog out :=
+  (* Go 1.22 mux: /authorize/{callback} does not match an empty segment: 404 *)
+  if is_nil (cb_id r) then Ret (OErr EOther) else
   Do (AByCb (cb_id r)) (fun rp =>
   match rp with
   | RASess s =>
@@ -263,7 +265,7 @@ Definition continue_auth (w : world) (n : nat) (now : Z) (r : cbreq) : prog out 
       | AFail e =>
           bind (get_client w (a_client s)) (fun oc =>
             match oc with
-            | None => Ret (OErr EInvalidRequest)
+            | None => Do (ADel (a_id s)) (fun _ => Ret (OErr EInvalidRequest))   (* fix: the session goes with its client *)
             | Some c => Ret (render_aerr (w_cfg w) c e)
             end)
       end)
